@@ -4,6 +4,24 @@ Q_IMPORTS = "From Ergo Require Import Common.Base Mbox.Queue.\nLocal Open Scope 
 P_IMPORTS = "From Ergo Require Import Common.Base Mbox.Order."
 
 
+R_IMPORTS = ("From Coq Require Import Uint63.\n"
+             "From Ergo Require Import Common.Base Proto.Model Proto.Cases Wire.Cases.\n"
+             "Local Open Scope Z_scope.")
+
+
+def _remote(c, n, replay=None):
+    """the remote path: messages and requests of every priority, with and without the important-delivery flag, over
+    a real connection; the priority the receiver's Route* call gets (= the queue it selects) is the sender's"""
+    import resource
+    try:
+        resource.setrlimit(resource.RLIMIT_STACK, (resource.RLIM_INFINITY, resource.RLIM_INFINITY))
+    except (ValueError, OSError):
+        pass
+    out = c.harness("proto", ["c12", "-replay", replay] if replay else ["c12", "-n", n], timeout=900)
+    if out:
+        c.cases("remote-priority", out, R_IMPORTS, "pcase", corr=[], spec=["spec_priority"], premise=["premise_c12"], shard=10)
+
+
 def run(c):
     c.proofs("theories/Properties/C03.v", clean=(c.tier == "thorough"))
     c.translate(['TieMbox', 'TieRecvLock'])  # T1: every priority switch selects the queue of the model's class_of; Lock/Unlock are one swap each
@@ -13,6 +31,9 @@ def run(c):
         import json
         rp = json.load(open(c.replay))
         eng = rp.get("engine", "parked")
+        if eng.startswith("remote-priority"):
+            _remote(c, None, replay=c.replay)
+            return
         if eng.startswith("evfifo"):
             out = c.harness("mbox", ["evfifo", "-replay", c.replay])
             if out:
@@ -37,6 +58,7 @@ def run(c):
         out = c.harness("mbox", ["evfifo", "-n", "26" if quick else "520"], timeout=900)
         if out:
             c.monitor("evfifo", out)
+        _remote(c, "70" if quick else "1200")
     if c.broken and not c.violations and not c.replay:
         keep = list(c.broken)
         out = c.harness("mbox", ["parked", "-n", "2500"], timeout=1800, env={"VERIF_SEED": str(c.seed + 7919)})
